@@ -135,6 +135,13 @@ def p_value(c):
     if tag == 2:
         n = c.next()
         return [p_value(c) for _ in range(n)]
+    if tag == 3:
+        n = c.next()
+        d = {}
+        for _ in range(n):
+            k = c.next()
+            d[k] = p_value(c)
+        return d
     raise ValueError(f"bad value tag {tag}")
 
 
@@ -209,7 +216,7 @@ def expected_logs(prog, events):
 
 
 def n_slots(t):
-    if is_prim(t):
+    if is_prim(t) or t[0] == "map":
         return 1
     if t[0] == "sarr":
         return t[2] * n_slots(t[1])
@@ -218,8 +225,26 @@ def n_slots(t):
     return sum(n_slots(ft) for _, ft in t[2])
 
 
+def map_slots(base, v, t):
+    """expected (slot, word) pairs of a HashMap value {key: value} whose own slot is `base`:
+    the element for key k lives at keccak256(pad32(base) ++ pad32(k)) (vyper: sha3_64(slot, key))"""
+    out = []
+    for k, x in v.items():
+        slot = int.from_bytes(keccak(base.to_bytes(32, "big") + (int(k) % W).to_bytes(32, "big")), "big")
+        vt = t[2]
+        if vt[0] == "map":
+            out += map_slots(slot, x, vt)
+        else:
+            for i, w in enumerate(flat_slots(x, vt)):
+                if w is not None:
+                    out.append(((slot + i) % W, w))
+    return out
+
+
 def flat_slots(v, t):
-    """expected slot words (None = not determined by the source semantics)"""
+    """expected slot words (None = not determined by the source semantics / checked elsewhere)"""
+    if t[0] == "map":
+        return [None]
     if is_prim(t):
         return [int(v) % W]
     if t[0] == "sarr":
@@ -231,12 +256,33 @@ def flat_slots(v, t):
 
 
 # ---------------------------------------------------------------- the real compiler + EVM
+class TargetOpcodeError(Exception):
+    """the compiler emitted an opcode that does not exist on the selected EVM target (pyrevm does not gate opcodes by
+    fork, so this is checked statically on the assembly output)"""
+
+
+NOT_BEFORE = {"PUSH0": "shanghai", "TLOAD": "cancun", "TSTORE": "cancun", "MCOPY": "cancun", "BLOBHASH": "cancun",
+              "BLOBBASEFEE": "cancun"}
+FORKS = ["london", "paris", "shanghai", "cancun", "prague"]
+
+
+def check_target_opcodes(out, evm):
+    if evm not in FORKS:
+        return
+    for fmt in ("asm", "asm_runtime"):
+        for tok in str(out.get(fmt, "")).split():
+            since = NOT_BEFORE.get(tok)
+            if since is not None and FORKS.index(evm) < FORKS.index(since):
+                raise TargetOpcodeError(f"opcode {tok} (available from {since}) emitted for evm_version={evm} ({fmt})")
+
+
 class Deployed:
     def __init__(self, prog, cfg, src=None):
         self.prog, self.cfg = prog, cfg
         self.src = src if src is not None else prog.vy()
         # no `abi` output: under experimental_codegen it runs the legacy generator as well (gas estimates)
-        self.out = compile_src(self.src, cfg, formats=("bytecode", "layout"))
+        self.out = compile_src(self.src, cfg, formats=("bytecode", "layout", "asm", "asm_runtime"))
+        check_target_opcodes(self.out, cfg.evm)
         self.chain = Chain(cfg.evm)
         self.addr = self.chain.deploy(bytes.fromhex(self.out["bytecode"][2:]))
         if self.addr is None:
@@ -256,19 +302,27 @@ class Deployed:
             logs.append((lt[1], lt[2]))
         return (r.ok, r.out, logs)
 
-    def raw_storage(self):
+    def raw_storage(self, model_final=None):
         out = {}
         for name, t in self.prog.sto:
             ent = self.layout[name]
             out[name] = [self.chain.storage(self.addr, ent["slot"] + i) for i in range(n_slots(t))]
+        maps = []
+        if model_final is not None:
+            for (name, t), v in zip(self.prog.sto, model_final):
+                if t[0] == "map":
+                    for slot, exp in map_slots(self.layout[name]["slot"], v, t):
+                        maps.append((name, slot, exp, self.chain.storage(self.addr, slot)))
+        out["$maps"] = maps
         return out
 
 
-def observe(prog, cfg, calls, src=None):
-    """-> (results [(ok, out, logs)], raw storage dict)"""
+def observe(prog, cfg, calls, src=None, model_final=None):
+    """-> (results [(ok, out, logs)], raw storage dict).  model_final (the model's final storage values) is only used to
+    know WHICH HashMap element slots to read back (keys the source program wrote)."""
     d = Deployed(prog, cfg, src)
     res = [d.call(c) for c in calls]
-    return res, d.raw_storage()
+    return res, d.raw_storage(model_final)
 
 
 def compare(prog, calls, model, obs, unordered=()):
@@ -318,4 +372,8 @@ def compare_all(prog, calls, model, obs, unordered=(), first_only=False):
             if e is not None and e != g:
                 out.append({"what": "final-storage", "var": name, "slot_offset": k, "expected": hex(e), "observed": hex(g)})
                 return out
+    for name, slot, e, g in osto.get("$maps", []):
+        if e != g:
+            out.append({"what": "final-storage", "var": name, "hashmap_element_slot": hex(slot), "expected": hex(e), "observed": hex(g)})
+            return out
     return out
